@@ -4,6 +4,7 @@ import (
 	"context"
 	"crypto/sha256"
 	"encoding/hex"
+	"encoding/json"
 	"fmt"
 	"sort"
 	"strings"
@@ -46,6 +47,27 @@ type workerDecl struct {
 	host             string // worker ID {"host": host}
 	prefix, platform string
 	sc               uint32
+	// extra: further fields of the worker ID besides "host".
+	extra map[string]string
+}
+
+// id is the worker ID the worker synchronizes with.
+func (d workerDecl) id() map[string]string {
+	m := map[string]string{"host": d.host}
+	for k, v := range d.extra {
+		m[k] = v
+	}
+	return m
+}
+
+// idKey is the canonical JSON form of the worker ID (encoding/json sorts
+// map keys), the key under which the scheduler files the worker.
+func (d workerDecl) idKey() string {
+	b, err := json.Marshal(d.id())
+	if err != nil {
+		panic(err)
+	}
+	return string(b)
 }
 
 type execDecl struct {
@@ -94,6 +116,11 @@ type config struct {
 	// P1, P2).
 	plats []string
 	fail  bool // "W.fail" letters: worker reports a failed action (size class retry)
+	// exec: "W.exec" letters: the worker's periodic NON-BLOCKING Synchronize
+	// "still executing <the action I was last told to execute>". kill:
+	// "kill:W" letters: operator KillOperations of the task executing on W
+	// (the scheduler completes it without the worker knowing).
+	exec, kill bool
 	// rewrite: platform rewriting as documented for DemultiplexingActionRouter +
 	// StaticKeyExtractor: requests whose Action carries platform <from> (any
 	// instance name) are routed by a SimpleActionRouter with a
@@ -186,6 +213,11 @@ type actor struct {
 	w    *mWorker
 	ch   chan int
 	busy bool
+	// phys: the task the worker process itself believes to be executing
+	// (the last one a Synchronize response told it to execute); differs
+	// from w.task, the scheduler's view, after the scheduler completed the
+	// task on its own.
+	phys *mTask
 }
 
 type sys struct {
@@ -275,7 +307,7 @@ func build(x *mc.X, cfg *config, depth int) *sys {
 	// makes it perform one Synchronize call, which may block across letters.
 	for _, d := range cfg.workers {
 		a := &actor{decl: d, ch: make(chan int, 1)}
-		a.w = &mWorker{name: d.name, id: map[string]string{"host": d.host}, scq: scqKey{pqKey{d.prefix, d.platform}, d.sc}}
+		a.w = &mWorker{name: d.name, id: d.id(), scq: scqKey{pqKey{d.prefix, d.platform}, d.sc}}
 		s.actors = append(s.actors, a)
 		x.Go(d.name, func() { s.actorLoop(a) })
 	}
@@ -361,7 +393,7 @@ func newSys(x *mc.X, cfg *config, depth int) *sys {
 	}
 
 	for _, d := range cfg.workers {
-		s.hostNames[fmt.Sprintf(`{"host":%q}`, d.host)] = d.name
+		s.hostNames[d.idKey()] = d.name
 	}
 	return s
 }
@@ -444,9 +476,21 @@ func (s *sys) addAlphabet() {
 			if a.w.task != nil && s.registeredTask(a) {
 				a.ch <- syncCompleteOK
 			} else {
+				a.phys = nil
 				a.ch <- syncIdle
 			}
 		})
+		if s.cfg.exec {
+			s.letter(a.decl.name+".exec", func() bool { return !a.busy && a.phys != nil && s.registeredTask(a) }, func() {
+				a.busy = true
+				a.ch <- syncExec
+			})
+		}
+		if s.cfg.kill {
+			s.letter("kill:"+a.decl.name, func() bool {
+				return !a.busy && a.w.task != nil && s.registeredTask(a) && len(a.w.task.opNames) > 0
+			}, func() { s.spawn("op", func() { s.doKill(a) }) })
+		}
 		if s.cfg.fail {
 			s.letter(a.decl.name+".fail", func() bool { return !a.busy && a.w.task != nil && s.registeredTask(a) }, func() {
 				a.busy = true
@@ -506,14 +550,20 @@ func (s *sys) actorLoop(a *actor) {
 			held = nil
 		}
 		s.m.preSync(a.w, kind)
+		phys := a.phys
 		s.mu.Unlock()
 		req := &remoteworker.SynchronizeRequest{
-			WorkerId:           map[string]string{"host": a.decl.host},
+			WorkerId:           a.decl.id(),
 			InstanceNamePrefix: a.decl.prefix,
 			Platform:           platformName(a.decl.platform),
 			SizeClass:          a.decl.sc,
 		}
-		if held == nil || kind == syncIdle {
+		if kind == syncExec {
+			req.CurrentState = &remoteworker.CurrentState{WorkerState: &remoteworker.CurrentState_Executing_{Executing: &remoteworker.CurrentState_Executing{
+				ActionDigest:   &remoteexecution.Digest{Hash: phys.hash, SizeBytes: 100},
+				ExecutionState: &remoteworker.CurrentState_Executing_Started{Started: &emptypb.Empty{}},
+			}}}
+		} else if held == nil || kind == syncIdle {
 			req.CurrentState = &remoteworker.CurrentState{WorkerState: &remoteworker.CurrentState_Idle{Idle: &emptypb.Empty{}}}
 		} else {
 			exit := int32(0)
@@ -529,19 +579,41 @@ func (s *sys) actorLoop(a *actor) {
 		}
 		resp, err := s.bq.Synchronize(s.ctx, req)
 		s.mu.Lock()
-		s.onSyncReturn(a, resp, err)
+		s.onSyncReturn(a, resp, err, kind)
 		a.busy = false
 		s.mu.Unlock()
 		s.x.ResetLocal(a.decl.name + ":idle")
 	}
 }
 
-func (s *sys) onSyncReturn(a *actor, resp *remoteworker.SynchronizeResponse, err error) {
+func (s *sys) onSyncReturn(a *actor, resp *remoteworker.SynchronizeResponse, err error, kind int) {
 	if s.torn {
 		return
 	}
 	s.m.expire(s.clock.Now())
 	w := a.w
+	if err == nil && resp.GetDesiredState() != nil {
+		// The worker process does what it is told: execute that
+		// action, or go idle. (No desired state: carry on.)
+		a.phys = nil
+		if ex := resp.GetDesiredState().GetExecuting(); ex != nil {
+			a.phys = s.m.tasks[ex.ActionDigest.GetHash()]
+		}
+	}
+	if err == nil && kind == syncExec && w.expectErr == codes.OK && !s.broken {
+		// The scheduler's view at the time of the call: w.task (nothing
+		// changes it between preSync and here in a sequential history).
+		switch ex := resp.GetDesiredState().GetExecuting(); {
+		case w.task != nil && resp.GetDesiredState() != nil:
+			s.fail("C05", "still-executing-redirected", "worker %s reported that it still executes its task %s and was told to do something else (%v)", w.name, w.task.letter, resp.GetDesiredState())
+		case w.task != nil:
+			s.outcome = append(s.outcome, w.name+"<continue")
+			s.m.postSyncReturn(w)
+			return
+		case ex == nil && resp.GetDesiredState().GetIdle() == nil:
+			s.fail("C05", "stale-execution-continues", "worker %s reported that it still executes a task the scheduler has completed on its own and was not told to stop", w.name)
+		}
+	}
 	switch {
 	case err != nil:
 		s.outcome = append(s.outcome, fmt.Sprintf("%s!%s", w.name, status.Code(err)))
@@ -621,6 +693,9 @@ func (s *sys) doExecute(e *execDecl) {
 			panic(err)
 		}
 		s.outcome = append(s.outcome, fmt.Sprintf("%s=%s", e.name, meta.Stage))
+		if t != nil {
+			t.opNames = append(t.opNames, op.Name)
+		}
 		if want != codes.OK || s.broken {
 			return
 		}
@@ -690,6 +765,40 @@ func (s *sys) doDrain(d *drainDecl, add bool) {
 	defer s.mu.Unlock()
 	if (err != nil) != (q == nil) && !s.torn {
 		s.failBoth("drain-call", "drain call %s add=%v returned %v, model has queue: %v", d.name, add, err, q != nil)
+	}
+}
+
+// doKill: KillOperations of (the first operation of) the task the scheduler
+// has executing on the worker. The scheduler completes the task without the
+// worker: the worker is idle in the scheduler's view, "there is no point in
+// offering any locality/stickiness" (it is associated with the root
+// invocation again), and it only finds out at its next Synchronize.
+func (s *sys) doKill(a *actor) {
+	s.mu.Lock()
+	s.m.expire(s.clock.Now())
+	w := a.w
+	t := w.task
+	_, q := s.m.registered(w)
+	if t == nil || q == nil {
+		s.mu.Unlock()
+		return
+	}
+	name := t.opNames[0]
+	t.state = tDone
+	w.task = nil
+	w.hasLast = true
+	w.lastPath = nil
+	s.m.gc(q)
+	s.mu.Unlock()
+	_, err := s.bq.KillOperations(s.ctx, &buildqueuestate.KillOperationsRequest{
+		Filter: &buildqueuestate.KillOperationsRequest_Filter{Type: &buildqueuestate.KillOperationsRequest_Filter_OperationName{OperationName: name}},
+		Status: status.New(codes.Canceled, "killed by the operator").Proto(),
+	})
+	s.mu.Lock()
+	defer s.mu.Unlock()
+	s.outcome = append(s.outcome, "kill:"+w.name)
+	if err != nil && !s.torn {
+		s.failBoth("kill-call", "KillOperations(%s), the task executing on %s, failed: %v", name, w.name, err)
 	}
 }
 
@@ -801,6 +910,11 @@ func (s *sys) key() string {
 	for _, a := range s.actors {
 		if a.busy {
 			busy = append(busy, a.decl.name)
+		}
+		if s.cfg.exec && a.phys != nil && a.phys != a.w.task {
+			// The worker process believes to execute a task the
+			// scheduler no longer has on it.
+			busy = append(busy, a.decl.name+"~stale")
 		}
 	}
 	return fmt.Sprintf("B|pos%d used%d ticks%d busy%v broken%v|%s|%s|T%s", s.pos, s.used, s.nTicks, busy, s.broken,
